@@ -46,6 +46,11 @@ DECLS = {
            ["GG<int> ogg = new GG<int>();", "echo(ogg.gg);", "echo(ogg.gh);", "echo(ogg.gb);"]),
     "GD": ("class GD extends GG<int> { public int gd = 4; public constructor() -> GD { super(); } }", ["GG"],
            ["GD ogd = new GD();", "echo(ogd.gd);", "echo(ogd.gg);", "echo(ogd.gh);", "echo(ogd.gb);", "GB up = new GD();", "echo(up.who());"]),
+    # a generic subclass that re-orders / re-binds the parameters of its generic base
+    "Cl": ("class Cl<T> { public T v; public constructor(T x) -> Cl<T> { this.v = x; } public function get() -> T { return this.v; } public function put(T x) -> void { this.v = x; } }", [],
+           ["Cl<string> cs = new Cl<string>(\"plain\");", "cs.put(\"again\");", "echo(cs.get());"]),
+    "Tg": ("class Tg<T, U> extends Cl<U> { public T tag; public constructor(T t, U u) -> Tg<T, U> { super(u); this.tag = t; } }", ["Cl"],
+           ["Tg<int, string> tg = new Tg<int, string>(7, \"eight\");", "echo(tg.get());", "echo(tg.tag);", "Cl<string> up = tg;", "echo(up.get());"]),
     # static initialisers that read another class's static
     "SB": ("class SB { public static int y = 5; public constructor() -> SB = default; }", [], ["echo(SB.y);"]),
     "SA": ("class SA { public static int x = SB.y + 1; public constructor() -> SA = default; }", ["SB"], ["echo(SA.x);"]),
@@ -98,12 +103,29 @@ def _one(sub):
 
 def main(tier):
     ck = vcheck.Check("C10", "exploration", tier)
-    maxsize = 5 if tier == "thorough" else 4
+    maxsize = 5 if tier == "thorough" else 3
     subs = list(subsets(maxsize))
+    # quick: every closed subset of <= 3 declarations, plus the dependency closure of every single declaration and of every pair
+    # (chains such as GB <- GH <- GG <- GD need four)
+    if tier != "thorough":
+        def closure(ds):
+            out = set(ds)
+            while True:
+                more = set(x for d in out for x in DECLS[d][1]) - out
+                if not more:
+                    return tuple(d for d in DECLS if d in out)
+                out |= more
+        have = set(subs)
+        names = list(DECLS)
+        for c in [closure([d]) for d in names] + [closure([a, b]) for i, a in enumerate(names) for b in names[i + 1:] if len(closure([a, b])) <= 4]:
+            if c not in have and len(c) <= 5:
+                have.add(c)
+                subs.append(c)
     ck.set_deadline(1700 if tier == "thorough" else 170)
     nruns = 0
     outs = set()
     accepted = 0
+    vacuous = []
     for sub, bad, n, obs in vdrv.pmap(_one, subs, chunksize=1):
         nruns += n
         outs.add((sub, obs))
@@ -111,11 +133,17 @@ def main(tier):
             accepted += 1
         else:
             ck.note("subset %s is not accepted in its first order: %s" % (list(sub), obs[0]))
+            if "BadLeaf" not in sub:
+                # only the subsets that instantiate the unimplemented leaf are meant to be rejected; anything else rejected in every order
+                # exercises nothing (generator rot, or an analyser that rejects valid programs - C16's subject)
+                vacuous.append(list(sub))
         for order, src, p in bad[:3]:
             pos = {d: i for i, d in enumerate(order)}
             ck.violation("order:%s:%s" % ("+".join(sub), ",".join(d for d in sub if any(pos[d] < pos[x] for x in DECLS[d][1]))), "%s\nprogram:\n%s" % (p, src),
                          {"tool": "vdrv", "job": {"kind": "run", "opts": {"gc": "own", "warn": 0}, "blobs": {"src": src}}})
+    if vacuous:
+        ck.harness_error("declaration subsets that are meant to be accepted are rejected in every order (the order comparison is vacuous for them): %s" % vacuous[:6])
     ck.sample({"subset": ["B", "D", "f1"], "one_order": program(("D", "main", "B", "f1"), ("f1", "B", "D"))})
     ck.assumptions += ["messages and positions may differ between permutations; only the status category and stdout are compared"]
-    ck.finish({"evaluations": nruns, "distinct_nontrivial": len(outs), "rule": "every dependency-closed subset of <= %d declarations (+ main) in all permutations; distinct = distinct (subset, behaviour) pairs" % maxsize,
+    ck.finish({"evaluations": nruns, "distinct_nontrivial": len(outs), "rule": "every dependency-closed subset of <= %d declarations (+ main)%s in all permutations; distinct = distinct (subset, behaviour) pairs" % (maxsize, "" if tier == "thorough" else ", plus the dependency closure of every declaration (<= 5) and of every pair (<= 4)"),
                "subsets": len(subs), "subsets_accepted": accepted})
